@@ -631,6 +631,175 @@ theorem parse_encodePart (hs : SLOT_SKIP_FROM = RECEIVED_BITS) (hg : PACKET_NO_R
 
 end Family
 
+/-! ### soundness of the executable checkers -/
+
+theorem goodStrB_sound {cap : Nat} {s : List UInt8} (h : goodStrB cap s = true) : GoodStr cap s := by
+  unfold goodStrB at h
+  simp only [Bool.and_eq_true, List.all_eq_true, bne_iff_ne, ne_eq, decide_eq_true_eq] at h
+  exact ⟨h.1.1, h.1.2, h.2⟩
+
+theorem inI32B_sound {v : Int} (h : inI32B v = true) : inI32 v := by
+  unfold inI32B at h
+  simp only [Bool.and_eq_true, decide_eq_true_eq] at h
+  exact h
+
+theorem clientOkB_sound {k : InfoKind} {c : ClientInfo} (h : clientOkB k c = true) : ClientOk k c := by
+  unfold clientOkB at h
+  simp only [Bool.and_eq_true] at h
+  obtain ⟨⟨h1, h2⟩, h3⟩ := h
+  refine ⟨goodStrB_sound h1, inI32B_sound h2, ?_, ?_⟩
+  · intro he
+    simp only [he, if_true, Bool.and_eq_true] at h3
+    refine ⟨goodStrB_sound h3.1.1, inI32B_sound h3.1.2, ?_⟩
+    by_cases hf : k.received.version.hasFullClientFlags = true
+    · simp only [hf, if_true] at h3 ⊢
+      exact inI32B_sound h3.2
+    · simp only [hf, if_false, Bool.false_eq_true, Bool.or_eq_true, beq_iff_eq] at h3 ⊢
+      exact h3.2
+  · intro he
+    simp only [he, Bool.false_eq_true, if_false, Bool.and_eq_true, beq_iff_eq] at h3
+    exact ⟨h3.1.1, h3.1.2, h3.2⟩
+
+theorem countsSaneB_sound {i : ServerInfo} (h : countsSaneB i = true) : CountsSane i := by
+  unfold countsSaneB at h
+  simp only [Bool.and_eq_true, decide_eq_true_eq] at h
+  obtain ⟨⟨⟨⟨⟨h1, h2⟩, h3⟩, h4⟩, h5⟩, h6⟩ := h
+  refine ⟨h1, h2, h3, h4, h5, ?_⟩
+  intro m hm
+  rw [hm] at h6
+  simpa using h6
+
+theorem headOkB_sound {k : InfoKind} {i : ServerInfo} {offset : Nat} (h : headOkB k i offset = true) :
+    HeadOk k i offset := by
+  unfold headOkB at h
+  simp only [Bool.and_eq_true] at h
+  obtain ⟨⟨⟨⟨⟨⟨⟨⟨⟨⟨⟨⟨⟨⟨hv, ht⟩, h1⟩, h2⟩, h3⟩, h4⟩, h5⟩, hh⟩, hm⟩, hp⟩, hs⟩, hc⟩, hmc⟩, hpl⟩, ho⟩ := h
+  refine ⟨by simpa using hv, inI32B_sound ht, goodStrB_sound h1, goodStrB_sound h2, goodStrB_sound h3,
+    goodStrB_sound h4, inI32B_sound h5, ?_, ?_, ?_, ?_, countsSaneB_sound hc, inI32B_sound hmc, ?_, ?_⟩
+  · split
+    · rename_i hb
+      simp only [hb, if_true] at hh
+      cases hho : i.hostname with
+      | none => simp [hho] at hh
+      | some x => simp only [hho] at hh; exact ⟨x, rfl, goodStrB_sound hh⟩
+    · rename_i hb
+      simp only [hb, if_false, Bool.false_eq_true, Option.isNone_iff_eq_none] at hh
+      exact hh
+  · split
+    · rename_i hb
+      simp only [hb, if_true] at hm
+      cases hc1 : i.mapCrc with
+      | none => simp [hc1] at hm
+      | some c =>
+        cases hc2 : i.mapSize with
+        | none => simp [hc1, hc2] at hm
+        | some sz =>
+          simp only [hc1, hc2, Bool.and_eq_true, decide_eq_true_eq] at hm
+          exact ⟨c, sz, rfl, hm.1, rfl, hm.2⟩
+    · rename_i hb
+      simp only [hb, if_false, Bool.false_eq_true, Bool.and_eq_true, Option.isNone_iff_eq_none] at hm
+      exact hm
+  · split
+    · rename_i hb
+      simp only [hb, if_true] at hp
+      cases hpp : i.progression with
+      | none => simp [hpp] at hp
+      | some x => simp only [hpp] at hp; exact ⟨x, rfl, inI32B_sound hp⟩
+    · rename_i hb
+      simp only [hb, if_false, Bool.false_eq_true, Option.isNone_iff_eq_none] at hp
+      exact hp
+  · split
+    · rename_i hb
+      simp only [hb, if_true] at hs
+      cases hpp : i.skillLevel with
+      | none => simp [hpp] at hs
+      | some x => simp only [hpp] at hs; exact ⟨x, rfl, inI32B_sound hs⟩
+    · rename_i hb
+      simp only [hb, if_false, Bool.false_eq_true, Option.isNone_iff_eq_none] at hs
+      exact hs
+  · intro he
+    simp only [he, Bool.false_eq_true, if_false, Bool.and_eq_true, decide_eq_true_eq] at hpl
+    exact hpl
+  · split
+    · rename_i hb
+      simp only [hb, if_true, decide_eq_true_eq] at ho
+      exact ho
+    · rename_i hb
+      simp only [hb, if_false, Bool.false_eq_true, decide_eq_true_eq] at ho
+      exact ho
+
+/-- the executable test implies the hypotheses of the round-trip theorem -/
+theorem representableB_sound {k : InfoKind} {i : ServerInfo} {offset : Nat} (h : representableB k i offset = true) :
+    k ≠ .info6ExMore ∧ HeadOk k i offset ∧ (∀ c ∈ i.clients, ClientOk k c) ∧
+      (k = .info664 → offset + i.clients.length ≤ RECEIVED_BITS) := by
+  unfold representableB at h
+  simp only [Bool.and_eq_true, bne_iff_ne, ne_eq, List.all_eq_true] at h
+  obtain ⟨⟨⟨hk, hh⟩, hc⟩, hs⟩ := h
+  refine ⟨hk, headOkB_sound hh, fun c hc' => clientOkB_sound (hc c hc'), ?_⟩
+  intro hk'
+  simp only [hk', beq_self_eq_true, if_true, decide_eq_true_eq] at hs
+  exact hs
+
+theorem representableMoreB_sound {token : Int} {no : Nat} {cs : List ClientInfo}
+    (h : representableMoreB token no cs = true) :
+    inI32 token ∧ 1 ≤ no ∧ no < 64 ∧ ∀ c ∈ cs, ClientOk .info6ExMore c := by
+  unfold representableMoreB at h
+  simp only [Bool.and_eq_true, decide_eq_true_eq, List.all_eq_true] at h
+  exact ⟨inI32B_sound h.1.1.1, h.1.1.2, h.1.2, fun c hc => clientOkB_sound (h.2 c hc)⟩
+
+/-! ### every well-formed family that passes the executable test is encodable -/
+
+theorem HeadOk.with_offset_664 {i : ServerInfo} {o : Nat} (h : HeadOk .info664 i o) (o' : Nat) (ho : o' < 2 ^ 31) :
+    HeadOk .info664 i o' :=
+  ⟨h.ver, h.token, h.version, h.name, h.map, h.gameType, h.flags, h.hostname, h.mapInfo, h.progression, h.skill,
+    h.counts, h.maxClients, h.plainCounts, by rw [if_pos (by decide)]; exact ho⟩
+
+theorem ClientOk.more_of_ex {c : ClientInfo} (h : ClientOk .info6Ex c) : ClientOk .info6ExMore c :=
+  ⟨h.name, h.score, h.ext, h.plain⟩
+
+namespace Family
+
+/-- executable: header and every client of the family fit the wire -/
+def representableB (f : Family) : Bool :=
+  headOkB (if f.ex then .info6Ex else .info664) f.hdr 0 &&
+    f.chunks.all (fun cs => cs.all (clientOkB (if f.ex then .info6Ex else .info664)))
+
+theorem chunk_mem (f : Family) {i : Nat} (hi : i < f.size) : f.chunk i ∈ f.chunks := by
+  unfold chunk size at *
+  simp [List.getD_eq_getElem?_getD, List.getElem?_eq_getElem hi]
+
+/-- **General encodability.** A well-formed family whose header and clients pass the executable test
+is `Encodable`, so `roundtrip_family_parts` applies to it. -/
+theorem encodable_of_representableB (f : Family) (hwf : f.WellFormed) (h : f.representableB = true) : f.Encodable := by
+  unfold representableB at h
+  simp only [Bool.and_eq_true, List.all_eq_true] at h
+  obtain ⟨hh, hc⟩ := h
+  have hhead := headOkB_sound hh
+  constructor
+  · intro i hi
+    cases hex : f.ex with
+    | true => simp only [hex, if_true] at hhead ⊢; exact hhead
+    | false =>
+      simp only [hex, Bool.false_eq_true, if_false] at hhead ⊢
+      apply hhead.with_offset_664
+      have h1 := hwf.2.2.2.2.2 hex
+      have h2 : f.offset i + (f.chunk i).length ≤ f.offset f.size := f.offset_mono hi
+      rw [f.offset_size] at h2
+      have : RECEIVED_BITS = 64 := rfl
+      omega
+  · intro i hi c hcm
+    have hok := clientOkB_sound (hc _ (f.chunk_mem hi) c hcm)
+    unfold kind
+    cases hex : f.ex with
+    | false => simp only [hex, Bool.false_eq_true, if_false] at hok ⊢; exact hok
+    | true =>
+      simp only [hex, if_true] at hok ⊢
+      split
+      · exact hok
+      · exact hok.more_of_ex
+
+end Family
+
 /-! ### the concrete families are encodable, and their encodings are the corpus byte strings -/
 
 theorem goodStr_of_decide {cap : Nat} {s : List UInt8} (h1 : (∀ b ∈ s, b ≠ 0)) (h2 : utf8Valid s = true)
